@@ -238,6 +238,8 @@ def make_block(coll_fn, maxpkt):
         c.cover("zlp", z3.And(s.isbusy, s.valid, s.zlp)) if any(len(b) % maxpkt == 0 for b in s.keys.values()) else None
         c.cover("second_packet", z3.And(s.isbusy, s.valid, s.gp != 0, z3.Not(s.zlp))) if any(len(b) > maxpkt for b in s.keys.values()) else None
         c.cover("truncated_by_wlength", z3.And(s.isbusy, s.valid, s.last, z3.ULT(s.gl, s.LEN)))
+        if any(len(b) % maxpkt == 0 for b in s.keys.values()):
+            c.cover("zlp_requested", z3.And(s.start_accept, s.exists, s.zlp))
         c.cover_depth = maxpkt + 8 if maxpkt <= 16 else 14
     return contract
 
@@ -260,6 +262,13 @@ def distributed_invariants(c, ts, s, coll, prefix=""):
     busy = s.isbusy
     Lspec = umin(bvc(s.maxpkt, W), gl - gp)
     c.inv(prefix + "age_bound", z3.Implies(busy, z3.And(z3.UGE(age, 1), z3.ULE(age, 2), s.exists)))
+    # A tree with the ZLP fix (proposed_fixes/C09_distributed_handler_zlp.diff) has a one-cycle `send_zlp` register;
+    # without it no state of the unit corresponds to "answering with a ZLP" and the zlp case is simply not provable.
+    has_zlp = ts.has(prefix + "send_zlp")
+    zcase = z3.And(busy, s.zlp) if has_zlp else z3.BoolVal(False)
+    if has_zlp:
+        c.inv(prefix + "send_zlp_register", (ts.sig(prefix + "send_zlp") == 1) == zcase)
+        c.inv(prefix + "zlp_is_answered_at_once", z3.Implies(zcase, age == 1))
     c.inv(prefix + "count_zero_before_data", z3.Implies(z3.And(busy, age == 1), cnt == 0))
     for k, b in s.keys.items():
         g = prefix + names[k] + "."
@@ -268,9 +277,9 @@ def distributed_invariants(c, ts, s, coll, prefix=""):
         mine = z3.And(busy, gv == k)
         nm = prefix + f"gen_{k:04x}_"
         c.inv(nm + "fsm_legal", fsm.legal())
-        c.inv(nm + "start_register", (sreg == 1) == z3.And(mine, age == 1))
+        c.inv(nm + "start_register", (sreg == 1) == z3.And(mine, age == 1, z3.Not(zcase)))
         c.inv(nm + "streaming_iff_serving", fsm.is_("STREAMING") == z3.And(mine, age == 2))
-        c.inv(nm + "not_done_while_waiting", z3.Implies(z3.And(mine, age == 1), fsm.is_("IDLE")))
+        c.inv(nm + "not_done_while_waiting", z3.Implies(z3.And(mine, age == 1, z3.Not(zcase)), fsm.is_("IDLE")))
         conj = [zx(reg(ts, g + "bytes_sent"), W) == cnt, zx(reg(ts, g + "max_length"), W) == Lspec,
                 z3.ULT(gp, s.T), z3.ULT(cnt, s.n),
                 ts.sig(g + "rom_read_port__data") == lookup(gp + cnt, list(b), 8)]
